@@ -619,6 +619,35 @@ class Interp:
                 for enum, vs in ENUM_VARIANTS.items():
                     if h in vs:
                         new = 'int:%d' % vs[h]
+        elif k == 'bin':
+            op = rv.get('op', '')
+            ta = tag_of_operand(rv['ops'][0], tags)
+            tb = tag_of_operand(rv['ops'][1], tags)
+
+            def sign(t):
+                if t == 'nz':
+                    return 'nz'
+                if t is not None and t.startswith('int:'):
+                    return 'z' if t == 'int:0' else 'nz'
+                return None
+            sa, sb = sign(ta), sign(tb)
+            if op in ('Add', 'AddWithOverflow', 'AddUnchecked'):
+                # unsigned counters: x + positive is non-zero
+                r = None
+                if sa == 'nz' and sb in ('z', 'nz'):
+                    r = 'nz'
+                elif sb == 'nz' and sa in ('z', 'nz'):
+                    r = 'nz'
+                elif sa == 'z' and sb == 'z':
+                    r = 'int:0'
+                if r is not None and self._unsigned(body, rv['ops'][0]):
+                    new = ('tup(%s)' % r) if op == 'AddWithOverflow' else r
+            elif op in ('Gt', 'Ne') and sb == 'z' and sa is not None:
+                new = 'T' if sa == 'nz' else 'F'
+            elif op == 'Lt' and sa == 'z' and sb is not None:
+                new = 'T' if sb == 'nz' else 'F'
+            elif op == 'Eq' and sb == 'z' and sa is not None:
+                new = 'F' if sa == 'nz' else 'T'
         elif k == 'un' and rv.get('op') == 'Not':
             tg = tag_of_operand(rv['ops'][0], tags)
             if tg == 'T':
@@ -629,6 +658,19 @@ class Interp:
             tags.pop(dst, None)
         else:
             tags[dst] = new
+
+    def _unsigned(self, body, o):
+        tid = o.get('t') if o['k'] == 'const' else None
+        if o['k'] in ('copy', 'move'):
+            pl = o['pl']
+            if pl['p']:
+                last = [e for e in pl['p'] if e['k'] == 'field']
+                tid = last[-1]['t'] if last else None
+            else:
+                tid = body.locals[pl['l']]
+        if tid is None:
+            return False
+        return self.f.types[tid].get('p') in ('usize', 'u64', 'u32', 'u16', 'u8', 'u128')
 
     def switch(self, fr, bi, tok, tags, t):
         tg = tag_of_operand(t['d'], tags)
@@ -764,7 +806,11 @@ class Interp:
                 outs_ = []
                 for (x, _tg) in res:
                     outs_.append((x, 'some(%s)' % inner))
-                    outs_.append((x, 'none'))
+                    if inner == 'err':
+                        # at least one element is Err: the iteration meets it before it ends
+                        outs_.append((x, 'some(ok())'))
+                    else:
+                        outs_.append((x, 'none'))
                 return finish(outs_)
         if is_tag_identity_call(t) and t['args']:
             tg = tag_of_operand(t['args'][0], tags)
@@ -877,22 +923,29 @@ class Interp:
             # unordered group: every constituent runs with the effects of all
             # the others possibly already applied
             acc = tok
+            acc_ok = tok
             etags = set()
             for _ in range(8):
-                before = acc
+                before = (acc, acc_ok)
                 for fu in futs:
                     for (nt, _tag) in self.one_fut(fr, bi, acc, tags, t, fu):
                         acc = d.join(acc, nt)
                         etags.add(_tag)
-            # note: the break is after a full pass so that etags is complete
-                if acc == before:
+                    for (nt, _tag) in self.one_fut(fr, bi, acc_ok, tags, t, fu):
+                        if _tag is not None and head(_tag) == 'ok':
+                            acc_ok = d.join(acc_ok, nt)
+                if (acc, acc_ok) == before:
                     break
-            gtag = None
+            multi = self.is_multi(ft, fr.ctx)
+            wrap = 'vec(%s)' if multi else 'tup(%s)'
             if etags and all(x is not None and head(x) == 'ok' for x in etags):
                 # every constituent returns Ok: the collected results are all Ok
-                multi = self.is_multi(ft, fr.ctx)
-                gtag = ('vec(ok())' if multi else 'tup(ok())')
-            res = [(acc, gtag)]
+                res = [(acc, wrap % 'ok()')]
+            elif etags and all(x is not None and head(x) in ('ok', 'err') for x in etags):
+                # either all constituents returned Ok, or at least one returned Err
+                res = [(acc_ok, wrap % 'ok()'), (acc, wrap % 'err')]
+            else:
+                res = [(acc, None)]
         outs = []
         for (nt, tag) in res:
             nt = d.on_await_end(self, fr, nt, tags, bi, t, futs)
